@@ -124,7 +124,15 @@ impl<T: Value> ErasedObserver for InternalObserver<T> {
             Disallowed | Unlinked => Ok(()),
             Created | InUse => {
                 // delete from the list in either case
-                self.on_update_handlers.borrow_mut().remove(&token);
+                let removed = self
+                    .on_update_handlers
+                    .borrow_mut()
+                    .remove(&token)
+                    .is_some();
+                if !removed {
+                    // already unsubscribed: nothing to undo
+                    return Ok(());
+                }
 
                 match self.state.get() {
                     Created => {
